@@ -126,6 +126,18 @@ def run(ctx):
                                 f"after {after} on {kind}, individual #{idx} of the pool changed: {cause}")
                     return False
                 snaps[idx] = now
+            # aliasing clause: two individuals owning ONE fitness cache object -- whatever a later step records about the
+            # one (evaluation of an offspring) is then written into the other (its parent, an input of an earlier step)
+            owner = {}
+            for idx, ind in enumerate(pool):
+                fs = getattr(ind, "fitness_store", None)
+                if fs is None:
+                    continue
+                first = owner.setdefault(id(fs), idx)
+                if first != idx:
+                    ctx.violate(f"C09/fitness-cache-shared-between-individuals/{after.split(':')[0]}",
+                                f"after {after} on {kind}, individuals #{first} and #{idx} of the pool are distinct objects that share one fitness_store object")
+                    return False
             return True
 
         # initial population
